@@ -335,10 +335,10 @@ func decode(s string) (e TEdge, ok bool, panicked string) {
 }
 
 var errClasses = map[string]string{
-	"The `first` argument cannot be negative.":                 "first-negative",
-	"You cannot provide both `first` and `last` arguments.":    "both",
-	"The `last` argument cannot be negative.":                  "last-negative",
+	"The `first` argument cannot be negative.":                "first-negative",
+	"You cannot provide both `first` and `last` arguments.":   "both",
+	"The `last` argument cannot be negative.":                 "last-negative",
 	"You must provide either the `first` or `last` argument.": "neither",
-	"Invalid after cursor.":                                    "invalid-after",
-	"Invalid before cursor.":                                   "invalid-before",
+	"Invalid after cursor.":                                   "invalid-after",
+	"Invalid before cursor.":                                  "invalid-before",
 }
